@@ -176,7 +176,12 @@ def run(run, replay=None):
                         break
                 if u is not None:
                     a = units[u]
-                    exp.append(a[:1] * (j - i) + a)
+                    # a sokuon doubles the consonant that follows it; before a vowel there is no consonant to double and the
+                    # sokuon is a unit of its own (its table spelling), which is also what the client reads back as っ
+                    if a[:1] in "aiueo":
+                        exp.append(units["っ"] * (j - i) + a)
+                    else:
+                        exp.append(a[:1] * (j - i) + a)
                     i = j + len(u)
                 elif j > i:
                     okd = False   # dangling sokuon: covered by the ascii clause
